@@ -65,6 +65,8 @@ def safe_assumptions(c):
 def run_harness(c, vlib, binary, extra=()):
     n = 300 if c.tier == "quick" else 3000
     args = [binary, "-out", c.build, "-seed", str(c.seed), "-n", str(n)] + list(extra)
+    if c.replay:
+        args += ["-replay", os.path.abspath(c.replay)]
     if c.tier != "quick":
         args.append("-thorough")
     rc, out = c.run(args, timeout=2400)
